@@ -187,7 +187,7 @@ impl Gen {
 
     pub fn opt(&mut self) -> OPT<'static> {
         // mostly a few options, now and then many (the list is bounded by RDLENGTH only)
-        let n = if self.rng.chance(1, 12) { *self.rng.pick(&[31usize, 32, 33, 64, 200]) } else { self.rng.below(4) as usize };
+        let n = if self.rng.chance(1, 12) { *self.rng.pick(&[31usize, 32, 33, 64, 200, 254, 255, 256, 300, 1000]) } else { self.rng.below(4) as usize };
         OPT {
             opt_codes: (0..n)
                 .map(|_| OPTCode { code: if self.rng.chance(1, 2) { *self.rng.pick(&[0u16, 1, 2, 3, 5, 6, 7, 8, 9, 10, 11, 12, 13, 14, 15, 16, 17, 65001]) } else { self.u16() }, data: if n > 8 { let l = self.rng.below(3) as usize; self.rng.bytes(l) } else { self.blob() }.into() })
@@ -200,8 +200,10 @@ impl Gen {
     /// a well-formed RDATA value of the given kind (index into `KIND_NAMES`)
     pub fn rdata(&mut self, kind: usize) -> RData<'static> {
         match kind {
-            0 => RData::A(A { address: self.u32() }),
-            1 => RData::AAAA(AAAA { address: self.rng.int(128) }),
+            // field by field, or through the typed constructors (`From<Ipv4Addr>`, `From<Ipv6Addr>`): the address is the
+            // big-endian number of its octets either way
+            0 => { let x = self.u32(); if self.rng.chance(1, 3) { RData::A(A::from(std::net::Ipv4Addr::from(x))) } else { RData::A(A { address: x }) } }
+            1 => { let x: u128 = self.rng.int(128); if self.rng.chance(1, 3) { RData::AAAA(AAAA::from(std::net::Ipv6Addr::from(x))) } else { RData::AAAA(AAAA { address: x }) } }
             2 => RData::NS(NS(self.name())),
             3 => RData::MD(MD(self.name())),
             4 => RData::CNAME(CNAME(self.name())),
@@ -214,7 +216,13 @@ impl Gen {
             11 => RData::MINFO(MINFO { rmailbox: self.name(), emailbox: self.name() }),
             12 => RData::MX(MX { preference: self.u16(), exchange: self.name() }),
             13 => {
-                if self.rng.chance(1, 6) {
+                if self.rng.chance(1, 7) {
+                    // built from an attribute map (what simple-mdns does for every advertised service)
+                    use std::convert::TryFrom;
+                    let mut m = std::collections::HashMap::new();
+                    for k in 0..self.rng.range(1, 5) { m.insert(format!("key{}", k), match self.rng.below(3) { 0 => None, 1 => Some(String::new()), _ => Some("v".repeat(self.rng.below(40) as usize)) }); }
+                    RData::TXT(TXT::try_from(m).unwrap())
+                } else if self.rng.chance(1, 6) {
                     // built from text: split into character-strings by the library
                     use std::convert::TryFrom;
                     let len = *self.rng.pick(&[1usize, 7, 254, 255, 256, 509, 600, 1100]);
